@@ -3,6 +3,7 @@
 //@harness normalize_never_nan_nonneg_zero_at_min serves=C13,C08 kind=complete fn=Range::normalize note="all f64 (min,max) accepted by from_min_max x all finite v: no panic (clamp), result not NaN, >= 0, == 0 for v <= min, == 0 for a degenerate range"
 //@harness from_min_max_accepts_exactly_ordered_finite serves=C13,C08 kind=complete fn=Range::from_min_max note="all f64 pairs: Ok iff min <= max and both finite (NaN / infinite limits rejected, never a panic); Ok keeps min,max bit for bit"
 //@harness normalize_value_switch serves=C13 kind=complete fn=PointCloudReaderSimple::normalize_value note="disabled => value as f32 bit for bit; enabled without range => 0; enabled with range => Range::normalize"
+//@harness normalize_value_enabled_is_normalised serves=C13 kind=complete fn=PointCloudReaderSimple::normalize_value note="all f64 (min,max) accepted by from_min_max x all finite v, normalisation enabled, range present: the DELIVERED value (not only Range::normalize) is never NaN, >= 0, 0 at or below the minimum, 0 for a degenerate range"
 //@harness normalize_value_enabled_delegates serves=C13 kind=complete fn=PointCloudReaderSimple::normalize_value note="schematic: enabled with a range => Range::normalize of that range (exact grid)"
 //@harness from_limits_selection serves=C13 kind=complete fn=Range::from_limits note="Some exactly when both limits present and of the same kind among Double/Single/Integer, built from those values as f64"
 //@harness from_record_data_type_ranges serves=C13 kind=complete fn=Range::from_record_data_type note="declared min/max else the type extremes; scaled integers through min*scale+offset"
@@ -58,6 +59,22 @@
         // enabled without a usable range: 0
         let none: Option<Range> = None;
         assert!(normalize_value_free(true, v, &none) == 0.0);
+    }
+    #[kani::proof]
+    #[kani::stub(alloc::fmt::format, fmt_stub)]
+    fn normalize_value_enabled_is_normalised() {
+        let min: f64 = kani::any();
+        let max: f64 = kani::any();
+        let v: f64 = kani::any();
+        kani::assume(v.is_finite());
+        if let Ok(r) = Range::from_min_max(min, max) {
+            let range = Some(r);
+            let n = normalize_value_free(true, v, &range);
+            assert!(!n.is_nan());
+            assert!(n >= 0.0);
+            if v <= min { assert!(n == 0.0); }
+            if min == max { assert!(n == 0.0); }
+        }
     }
     #[kani::proof]
     #[kani::stub(alloc::fmt::format, fmt_stub)]
